@@ -16,6 +16,7 @@ import (
 	"go/constant"
 	"go/token"
 	"go/types"
+	"sort"
 
 	"golang.org/x/tools/go/ssa"
 )
@@ -76,6 +77,7 @@ type pstate struct {
 	onPath map[*ssa.BasicBlock]bool
 	curBlk int
 	stack  []frame // inlined calls in progress (innermost last)
+	unroll map[int]int // loop header -> iterations unrolled so far on this path (headers in concrete mode)
 }
 
 // frame: where to continue in the caller when an inlined callee returns.
@@ -136,6 +138,12 @@ func (s *pstate) clone() *pstate {
 	n.conds = append([]Cond(nil), s.conds...)
 	n.blocks = append([]int(nil), s.blocks...)
 	n.stack = append([]frame(nil), s.stack...)
+	if len(s.unroll) > 0 {
+		n.unroll = make(map[int]int, len(s.unroll))
+		for k, v := range s.unroll {
+			n.unroll[k] = v
+		}
+	}
 	return n
 }
 
@@ -149,6 +157,8 @@ type Explorer struct {
 	unkID    int64
 	Err      error
 	NoInline bool
+	probing  bool // evaluating a loop header to see whether its test is decided
+	probeC   *T
 	// Bind lets a client pre-bind parameters to terms.
 	Bind map[*ssa.Parameter]*T
 }
@@ -299,6 +309,9 @@ func (e *Explorer) lvalue(s *pstate, addr ssa.Value) *T {
 		} else {
 			base = e.val(s, a.X)
 		}
+		if fb, ok := freshBase(base); ok {
+			base = fb
+		}
 		return &T{Op: "elem", A: []*T{base, e.val(s, a.Index)}, Ty: elemType(a.X.Type())}
 	case *ssa.Global:
 		return &T{Op: "global", S: a.Name(), Ty: a.Type().(*types.Pointer).Elem()}
@@ -365,8 +378,17 @@ func (e *Explorer) allocOf(s *pstate, addr ssa.Value) (*ssa.Alloc, []string) {
 }
 
 func untracked(lv *T) bool {
-	// elements of slices with non-constant index are never tracked (aliasing)
-	return lv.contains(func(x *T) bool { return x.Op == "elem" })
+	// elements are not tracked (aliasing), except constant positions of an
+	// array the function created itself (a composite literal)
+	return lv.contains(func(x *T) bool {
+		if x.Op != "elem" {
+			return false
+		}
+		if _, fresh := freshBase(x.A[0]); fresh && x.A[1].IsConst() {
+			return false
+		}
+		return true
+	})
 }
 
 // load reads the storage named by addr.
@@ -484,6 +506,21 @@ func (e *Explorer) store(s *pstate, in *ssa.Store, blk int) {
 	lv := e.lvalue(s, in.Addr)
 	s.events = append(s.events, Event{Kind: "store", Instr: in, Pos: in.Pos(), LV: lv, Val: v, Block: blk, Epoch: s.seq})
 	s.bump(lv)
+	if untracked(lv) {
+		lv.walk(func(x *T) bool {
+			if x.Op == "elem" {
+				if fb, fresh := freshBase(x.A[0]); fresh {
+					for hk, hl := range s.heapLV {
+						if hl.contains(func(y *T) bool { return y.Op == "elem" && y.A[0].Key() == fb.Key() }) {
+							delete(s.heap, hk)
+							delete(s.heapLV, hk)
+						}
+					}
+				}
+			}
+			return true
+		})
+	}
 	if !untracked(lv) {
 		// invalidate sub-lvalues and enclosing whole values
 		k := lv.Key()
@@ -601,7 +638,7 @@ func (e *Explorer) runBlock(b *ssa.BasicBlock, pred int, s *pstate, start int) {
 // analysed packages that no rule treats as an anchor: its body is explored in
 // the caller's state instead of being summarised as an opaque call.
 func (e *Explorer) shouldInline(s *pstate, callee *ssa.Function) bool {
-	if e.NoInline || callee == e.Fn || !e.W.inlinable(callee) {
+	if e.NoInline || e.probing || callee == e.Fn || !e.W.inlinable(callee) {
 		return false
 	}
 	for _, f := range s.stack {
@@ -680,7 +717,11 @@ func (e *Explorer) runFrom(b *ssa.BasicBlock, pred int, from int, s *pstate, sta
 			e.store(s, in, rb)
 		case *ssa.Alloc:
 			if in.Heap {
-				s.regs[in] = &T{Op: "new", S: e.allocName(in), C: int64(allocID(in)), Ty: in.Type()}
+				nm := e.allocName(in)
+				if it := s.iteration(); it != "" {
+					nm += it // storage created in an unrolled iteration is distinct per iteration
+				}
+				s.regs[in] = &T{Op: "new", S: nm, C: int64(allocID(in)), Ty: in.Type()}
 			} else {
 				delete(s.allocs, in)
 			}
@@ -814,17 +855,30 @@ func (e *Explorer) runFrom(b *ssa.BasicBlock, pred int, from int, s *pstate, sta
 				e.runFrom(fr.blk, -3, fr.idx, s, start)
 				return
 			}
+			if e.probing {
+				return
+			}
 			s.events = append(s.events, Event{Kind: "ret", Instr: in, Pos: in.Pos(), Args: rets, Block: rb})
 			e.finish(s, start, "ret", rets)
 			return
 		case *ssa.Panic:
+			if e.probing {
+				return
+			}
 			s.events = append(s.events, Event{Kind: "panic", Instr: in, Pos: in.Pos(), Block: rb})
 			e.finish(s, start, "panic", nil)
 			return
 		case *ssa.Jump:
+			if e.probing {
+				return
+			}
 			e.edge(b, b.Succs[0], s, start)
 			return
 		case *ssa.If:
+			if e.probing {
+				e.probeC = e.val(s, in.Cond)
+				return
+			}
 			e.branch(b, in, s, start)
 			return
 		default:
@@ -833,11 +887,65 @@ func (e *Explorer) runFrom(b *ssa.BasicBlock, pred int, from int, s *pstate, sta
 			}
 		}
 	}
-	e.finish(s, start, "fallout", nil)
+	if !e.probing {
+		e.finish(s, start, "fallout", nil)
+	}
+}
+
+// decided: with the values flowing in from `from`, is the test at the end of
+// loop header `to` a constant?  (A loop over a composite literal, a counted
+// loop with constant bounds.)  Evaluated on a copy of the state.
+func (e *Explorer) decided(from, to *ssa.BasicBlock, s *pstate, start int) bool {
+	if e.probing || !countedLoop(to) {
+		return false
+	}
+	t := s.clone()
+	delete(t.onPath, to)
+	e.probing, e.probeC = true, nil
+	np := len(e.paths)
+	e.runFrom(to, from.Index, 0, t, start)
+	e.probing = false
+	e.paths = e.paths[:np]
+	return e.probeC != nil && e.probeC.IsConst()
+}
+
+const maxUnroll = 64
+
+// iterate: take one more concrete iteration of the loop at header `to`.
+func (e *Explorer) iterate(from, to *ssa.BasicBlock, s *pstate, start int) {
+	if s.unroll == nil {
+		s.unroll = map[int]int{}
+	}
+	s.unroll[to.Index]++
+	for _, b := range e.Fn.Blocks {
+		if to.Dominates(b) {
+			delete(s.onPath, b)
+		}
+	}
+	s.events = append(s.events, Event{Kind: "unroll", Block: s.rootBlk(from), Res: tconst(int64(to.Index), nil), Epoch: s.unroll[to.Index]})
+	e.runBlock(to, from.Index, s, start)
 }
 
 func (e *Explorer) edge(from, to *ssa.BasicBlock, s *pstate, start int) {
 	inl := len(s.stack) > 0
+	if !inl && e.headers[to.Index] {
+		n, concrete := s.unroll[to.Index]
+		entering := !e.backEdge[[2]int{from.Index, to.Index}] && !s.onPath[to]
+		if (entering || concrete) && n < maxUnroll && e.decided(from, to, s, start) {
+			e.iterate(from, to, s, start)
+			return
+		}
+		if concrete {
+			// the test is no longer decided (or the bound is reached): the rest of
+			// the loop is explored abstractly from the current state
+			delete(s.unroll, to.Index)
+			for _, b := range e.Fn.Blocks {
+				if to.Dominates(b) {
+					delete(s.onPath, b)
+				}
+			}
+		}
+	}
 	if (!inl && e.backEdge[[2]int{from.Index, to.Index}]) || s.onPath[to] {
 		// record the values flowing into the header's phis
 		var args []*T
@@ -976,6 +1084,9 @@ func (e *Explorer) call(s *pstate, in ssa.Instruction, c *ssa.CallCommon, v ssa.
 			if args[0].Op == "str" {
 				s.regs[v] = tconst(int64(len(args[0].S)), v.Type())
 			}
+			if n, ok := staticLen(args[0]); ok {
+				s.regs[v] = tconst(n, v.Type())
+			}
 		default:
 			r := &T{Op: "builtin", S: bi.Name(), A: args, Ty: v.Type()}
 			s.regs[v] = r
@@ -1067,4 +1178,122 @@ func (e *Explorer) inlinePure(fn *ssa.Function, args []*T) *T {
 		}
 		return nil
 	})
+}
+
+// staticLen: the length of a slice of a whole array of known size (a
+// composite literal), or of an array.
+func staticLen(t *T) (int64, bool) {
+	arrLen := func(ty types.Type) (int64, bool) {
+		if ty == nil {
+			return 0, false
+		}
+		if p, ok := ty.Underlying().(*types.Pointer); ok {
+			ty = p.Elem()
+		}
+		if a, ok := ty.Underlying().(*types.Array); ok {
+			return a.Len(), true
+		}
+		return 0, false
+	}
+	if t.Op == "slice" && len(t.A) == 4 && (t.A[1].Op == "none" || t.A[1].IsConstVal(0)) && t.A[3].Op == "none" {
+		if t.A[2].Op == "none" {
+			return arrLen(t.A[0].Ty)
+		}
+		if t.A[2].IsConst() {
+			return t.A[2].C, true
+		}
+	}
+	return 0, false
+}
+
+// freshBase: the array behind an element lvalue when it is storage created
+// in the function itself (a composite literal); slices of the whole array
+// name the same storage.
+func freshBase(b *T) (*T, bool) {
+	for b.Op == "slice" && len(b.A) == 4 && (b.A[1].Op == "none" || b.A[1].IsConstVal(0)) {
+		b = b.A[0]
+	}
+	if b.Op == "new" || b.Op == "alloc" {
+		return b, true
+	}
+	return b, false
+}
+
+// countedLoop: the loop at header h is left by a comparison of an induction
+// variable (a header phi that every back edge advances by a constant, or that
+// phi plus a constant) with a value computed outside the loop.  Only such
+// loops can have a statically known trip count.
+func countedLoop(h *ssa.BasicBlock) bool {
+	ifi, ok := h.Instrs[len(h.Instrs)-1].(*ssa.If)
+	if !ok {
+		return false
+	}
+	cmp, ok := ifi.Cond.(*ssa.BinOp)
+	if !ok {
+		return false
+	}
+	switch cmp.Op {
+	case token.LSS, token.LEQ, token.GTR, token.GEQ, token.NEQ:
+	default:
+		return false
+	}
+	induction := func(v ssa.Value) bool {
+		if b, ok := v.(*ssa.BinOp); ok && (b.Op == token.ADD || b.Op == token.SUB) {
+			if _, isC := b.Y.(*ssa.Const); isC {
+				v = b.X
+			}
+		}
+		phi, ok := v.(*ssa.Phi)
+		if !ok || phi.Block() != h {
+			return false
+		}
+		for i, pred := range h.Preds {
+			if !h.Dominates(pred) {
+				continue // entry edge
+			}
+			step, ok := phi.Edges[i].(*ssa.BinOp)
+			if !ok || (step.Op != token.ADD && step.Op != token.SUB) {
+				return false
+			}
+			if _, isC := step.Y.(*ssa.Const); !isC {
+				return false
+			}
+			// the step starts from the phi itself or from the value compared (phi + c)
+			if step.X != phi {
+				if b, ok := step.X.(*ssa.BinOp); !ok || b.X != phi {
+					return false
+				}
+			}
+		}
+		return true
+	}
+	invariant := func(v ssa.Value) bool {
+		if _, ok := v.(*ssa.Const); ok {
+			return true
+		}
+		if in, ok := v.(ssa.Instruction); ok {
+			return in.Block() != nil && !h.Dominates(in.Block())
+		}
+		_, isParam := v.(*ssa.Parameter)
+		return isParam
+	}
+	return (induction(cmp.X) && invariant(cmp.Y)) || (induction(cmp.Y) && invariant(cmp.X))
+}
+
+// iteration: which concrete iteration(s) of the enclosing unrolled loops the
+// path is in ("" outside unrolled loops).
+func (s *pstate) iteration() string {
+	if len(s.unroll) == 0 {
+		return ""
+	}
+	var hs []int
+	for h := range s.unroll {
+		hs = append(hs, h)
+	}
+	sort.Ints(hs)
+	out := ""
+	for _, h := range hs {
+		out += fmt.Sprintf("~%d.%d", h, s.unroll[h])
+	}
+	return out
 }
